@@ -203,20 +203,8 @@ func (w *world) classify(prefix string, excl bool, got, exp map[string]bool) str
 		}
 	}
 	vt := w.st.view(prefix)
-	if excl {
-		all := true
-		for _, v := range append(append([]string{}, extra...), missing...) {
-			if !vt.snapAmbig[v] {
-				all = false
-			}
-		}
-		if all {
-			return "exclusive-view-depends-on-snapshot-order"
-		}
-	}
-	if len(missing) > 0 && vt.reloadChanged {
-		return "value-lost-after-reload-with-changed-value"
-	}
+	// (1) only stale values, each of which was overwritten in place (by a delivered PUT of
+	// the same key, or by a reload snapshot in which the key had another value)
 	if len(missing) == 0 {
 		explained, byReload := true, false
 		for _, v := range extra {
@@ -234,6 +222,32 @@ func (w *world) classify(prefix string, excl bool, got, exp map[string]bool) str
 			}
 			return "stale-value-after-update-in-place"
 		}
+	}
+	// (2) exclusive: every differing value was held by two keys in a snapshot
+	if excl {
+		all := true
+		for _, v := range append(append([]string{}, extra...), missing...) {
+			if !vt.snapAmbig[v] {
+				all = false
+			}
+		}
+		if all {
+			return "exclusive-view-depends-on-snapshot-order"
+		}
+	}
+	// (2b) a live value is missing and two first subscribers raced through Registry.Monitor
+	// (both loaded a snapshot, the later one found nothing new to announce)
+	if len(missing) > 0 && vt.dupWatch {
+		return "concurrent-first-subscribers-miss-initial-values"
+	}
+	// (3) a live value is missing after a reload that changed some key's value
+	if len(missing) > 0 && vt.reloadChanged {
+		return "value-lost-after-reload-with-changed-value"
+	}
+	// (4) exclusive: a live value is missing after some key was updated in place (the stale
+	// entry of that key makes the eviction hit the key's current registration)
+	if excl && len(missing) > 0 && len(vt.overwritten) > 0 {
+		return "exclusive-value-lost-after-update-in-place"
 	}
 	kind := "view-mismatch"
 	switch {
@@ -275,24 +289,42 @@ func (w *world) checkViews(when string) {
 			if !sameSet(got, exp) {
 				c.tainted = true
 				cls := w.classify(c.prefix, false, got, exp)
-				if !strings.Contains(cls, "after-") {
+				if cls == "view-mismatch" || cls == "stale-value" || cls == "missing-value" {
 					cls = "resolver-" + cls
 				}
 				w.fail(cls, "%s: resolver's last UpdateState has %v, live registrations under %s give %v (%d updates); history: %s",
 					when, sorted(got), c.prefix, sorted(exp), c.updates, w.history())
 			}
 		default:
-			bad := len(got) != subsetMax
+			extra := map[string]bool{}
 			for v := range got {
 				if !exp[v] {
-					bad = true
+					extra[v] = true
 				}
 			}
-			if bad {
+			switch {
+			case len(extra) > 0:
 				c.tainted = true
-				w.fail("resolver-subset", "%s: %d live addresses; resolver's last UpdateState has %d addresses, want a %d-subset of the live ones: %v",
+				rest := map[string]bool{}
+				for v := range got {
+					if !extra[v] {
+						rest[v] = true
+					}
+				}
+				cls := w.classify(c.prefix, false, got, rest)
+				if cls == "stale-value" {
+					cls = "resolver-subset"
+				}
+				w.fail(cls, "%s: %d live addresses; resolver's last UpdateState contains %v which are not live", when, len(exp), sorted(extra))
+			case len(got) != subsetMax:
+				c.tainted = true
+				cls := w.classify(c.prefix, false, got, exp)
+				if cls == "missing-value" {
+					cls = "resolver-subset"
+				}
+				w.fail(cls, "%s: %d live addresses; resolver's last UpdateState has %d addresses, want a %d-subset of the live ones: %v",
 					when, len(exp), len(got), subsetMax, sorted(got))
-			} else {
+			default:
 				w.r.Probe("resolver-subset-of-more-than-32")
 			}
 		}
@@ -417,7 +449,7 @@ func (w *world) startPub(p *pubRec) {
 	p.pub = discov.NewPublisher(w.endpoints, p.key, p.value, opts...)
 	w.allPubs = append(w.allPubs, p.pub)
 	before := w.st.nextLease
-	if err := p.pub.KeepAlive(); err != nil {
+	if err := discov.VerifPublisherKeepAlive(p.pub); err != nil {
 		w.r.Fail("publisher-error", "Publisher.KeepAlive: %v", err)
 		return
 	}
@@ -608,13 +640,21 @@ func discovScenario(r *simrt.Run, tier string) {
 	// ---- faults stop; bounded virtual time to converge
 	w.st.faultsOn = false
 	w.st.getFail = 0
-	if !r.JoinTimeout(10*time.Minute, joins...) {
-		r.Fail("subscribe-stuck", "NewSubscriber / resolver Build did not return within 10 virtual minutes after the last fault: %v", r.AliveTasks())
+	joinsDone := r.JoinTimeout(10*time.Minute, joins...)
+	reloadsDone := r.JoinTimeout(10*time.Minute, w.reloads...)
+	if !reloadsDone {
+		class := "reload-stuck"
+		if w.reloadHoldsLock() {
+			// scenario class: reload waits for the watch goroutines while holding the cluster
+			// lock, and one of them needs that lock (load -> handleChanges, handleWatchEvents)
+			class = "reload-deadlock-holding-cluster-lock"
+		}
+		w.fail(class, "cluster.reload (reconnect) did not finish within 10 virtual minutes after the last fault; alive: %v; history: %s", r.AliveTasks(), w.history())
 		w.cleanup()
 		return
 	}
-	if !r.JoinTimeout(10*time.Minute, w.reloads...) {
-		w.fail("reload-stuck", "cluster.reload (reconnect) did not finish within 10 virtual minutes after the last fault; alive: %v; history: %s", r.AliveTasks(), w.history())
+	if !joinsDone {
+		w.fail("subscribe-stuck", "NewSubscriber / resolver Build did not return within 10 virtual minutes after the last fault: %v; history: %s", r.AliveTasks(), w.history())
 		w.cleanup()
 		return
 	}
@@ -769,6 +809,20 @@ func (w *world) step() {
 		w.op("next %d Gets fail", n)
 		w.st.getFail += n
 	}
+}
+
+// reloadHoldsLock: a reload task sits in watchGroup.Wait (it holds the cluster lock there)
+// while another task of the cluster waits for a lock.
+func (w *world) reloadHoldsLock() bool {
+	waiting, locked := false, false
+	for _, a := range w.r.AliveTasks() {
+		if strings.Contains(a, "reconnect-reload") && strings.Contains(a, "WaitGroup.Wait") {
+			waiting = true
+		} else if strings.Contains(a, "Mutex.") && !strings.Contains(a, "registry.go:") {
+			locked = true
+		}
+	}
+	return waiting && locked
 }
 
 func (w *world) cleanup() {
